@@ -106,7 +106,7 @@ func (fe functionExpr) CompletionAtPos(ctx context.Context, pos hcl.Pos) []lang.
 		return []lang.Candidate{}
 
 	case *hclsyntax.FunctionCallExpr:
-		if eType.NameRange.ContainsPos(pos) {
+		if eType.NameRange.ContainsPos(pos) || eType.NameRange.End.Byte == pos.Byte {
 			prefixLen := pos.Byte - eType.NameRange.Start.Byte
 			prefix := eType.Name[0:prefixLen]
 			editRange := eType.Range()
@@ -119,7 +119,7 @@ func (fe functionExpr) CompletionAtPos(ctx context.Context, pos hcl.Pos) []lang.
 		}
 
 		parensRange := hcl.RangeBetween(eType.OpenParenRange, eType.CloseParenRange)
-		if !parensRange.ContainsPos(pos) {
+		if !parensRange.ContainsPos(pos) || pos.Byte < eType.OpenParenRange.End.Byte {
 			return []lang.Candidate{} // Not inside parenthesis
 		}
 
